@@ -316,8 +316,8 @@ def index_part(chk, runner, cases):
         fails = spec_failures(mode, calls, R) + spec_query_failures(calls, queries, R)
         if fails:
             failing.append((mode, calls, fails))
-        if "NULL" in R.get("vec", "") or R.get("prepare") != "ok":
-            unsafe.add((int(mode), tuple(sm)))
+        if fails or "NULL" in R.get("vec", "") or R.get("prepare") != "ok":
+            unsafe.add((int(mode), tuple(sm)))     # the ED chain is not run on top of an index table that is already wrong
         H = r.get("H", {})
         if len(set(H.values())) != len(H):
             collisions.append((canon, H))
@@ -325,10 +325,14 @@ def index_part(chk, runner, cases):
                  sample={"lattice": canon, "impl": R["body"][:300], "model_as_written": r.get("M0", {}).get("body", "")[:300]}
                  if (sig.endswith("sites=3 unsorted-calls") and "hetero" in sig) else None)
     n = len(cases)
-    variant = ("as-written (`break`, Index.v fixed=false)" if agree["M0"] == n and (agree["M1"] < n or discriminating == 0) else
-               "repaired (`continue`, Index.v fixed=true)" if agree["M1"] == n else "neither")
     if agree["M0"] == n and agree["M1"] == n:
-        variant = "undetermined (no discriminating case)" if discriminating == 0 else variant
+        variant = "undetermined (no case on which the two variants of the model differ)"
+    elif agree["M0"] == n:
+        variant = "as-written (`break`, Index.v fixed=false)"
+    elif agree["M1"] == n:
+        variant = "repaired (`continue`, Index.v fixed=true)"
+    else:
+        variant = "neither"
     chk.extra["index_cases"] = n
     chk.extra["index_cases_discriminating_variants"] = discriminating
     chk.extra["agree_with_model_as_written"] = agree["M0"]
@@ -534,9 +538,12 @@ def model_is_safe(unsafe, model, relabel, mode):
     return (int(mode), sm) not in unsafe
 
 
-def run_phys(hphys, jobs):
+PHYS_BATCH_TIMEOUT = 150
+
+
+def run_phys(hphys, jobs, timeout=PHYS_BATCH_TIMEOUT):
     """jobs: [(sid, text)] -> parsed results"""
-    rc, out, err = pv.run_harness(hphys, "".join(t for _, t in jobs), timeout=1500)
+    rc, out, err = pv.run_harness(hphys, "".join(t for _, t in jobs), timeout=timeout)
     res = parse_phys(out)
     return rc, res, err
 
@@ -555,7 +562,7 @@ def shrink_phys(hphys, model, var, budget=60):
         trial = [t for j, t in enumerate(terms) if j not in drop]
         m2 = dict(cur, terms=trial)
         rc, res, _ = run_phys(hphys, [("a", scenario_text("a", m2, ident, list(range(len(model["sites"]))), 0)),
-                                      ("b", scenario_text("b", m2, relabel, order, mode))])
+                                      ("b", scenario_text("b", m2, relabel, order, mode))], timeout=20)
         budget -= 1
         if rc == 0 and "a" in res and "b" in res and compare_phys(res["a"], res["b"], relabel) is not None:
             terms = trial
@@ -592,19 +599,31 @@ def phys_part(chk, plans, unsafe):
         for vi, (name, rel, order, mode) in enumerate(vs):
             if not model_is_safe(unsafe, m, rel, mode):
                 skipped += 1
-                chk.case("P skipped %d %s" % (mi, name), "phys skipped: index table of this copy has null entries", nontrivial=False)
+                chk.case("P skipped %d %s" % (mi, name), "phys skipped: index table of this copy already fails the property", nontrivial=False)
                 continue
             sid = "m%dv%d" % (mi, vi)
             jobs.append((sid, scenario_text(sid, m, rel, order, mode)))
             meta.append((sid, mi, vi))
-    rc, res, err = run_phys(hphys, jobs)
     texts = dict(jobs)
-    if rc != 0:
-        last = [s for s, _, _ in meta if s in res and res[s]["done"]]
-        nxt = meta[len(last)] if len(last) < len(meta) else None
-        chk.violation("h_c18_phys crashed", "ED chain harness exited with %d after %d of %d scenarios: %s" % (rc, len(last), len(meta), err[-300:]),
-                      {"kind": "phys-crash", "scenario": texts.get(nxt[0]) if nxt else None, "stderr": err[-1500:]})
+    res = {}
+    BATCH = 120
+    for b0 in range(0, len(jobs), BATCH):
+        batch = jobs[b0:b0 + BATCH]
+        rc, r1, err = run_phys(hphys, batch, timeout=PHYS_BATCH_TIMEOUT)
+        res.update(r1)
+        if rc != 0:
+            undone = [sid for sid, _ in batch if not (sid in r1 and r1[sid]["done"])]
+            what = ("did not finish within %d s (stopped)" % PHYS_BATCH_TIMEOUT) if rc == 124 else ("exited with %d" % rc)
+            first = undone[0] if undone else None
+            m = plans[[x for x in meta if x[0] == first][0][1]][0] if first else None
+            chk.violation("ED chain %s sites=%s" % ("hangs" if rc == 124 else "crashes",
+                                                    ",".join("%s(%d,%d)" % s for s in m["sites"]) if m else "?"),
+                          "ED chain harness %s on scenario %s (%d of %d scenarios of the run done): %s" % (
+                              what, first, len([1 for x in res.values() if x["done"]]), len(jobs), err[-300:]),
+                          {"kind": "phys-crash", "scenario": texts.get(first), "stderr": err[-1500:]})
+            break      # one runaway scenario is enough; do not spend the time budget on more
     compared = 0
+    nviol = 0
     for sid, mi, vi in meta:
         if vi == 0:
             continue
@@ -623,11 +642,14 @@ def phys_part(chk, plans, unsafe):
                          "n_terms": len(m["terms"]), "G00_base": str(b["G"].get((0, 0, 0)))} if (compared % 37 == 5) else None)
         compared += 1
         if diff is not None:
-            small = shrink_phys(hphys, m, vs[vi])
+            nviol += 1
+            if nviol > 6:
+                continue                 # enough replays; the count goes into the evidence
+            small = shrink_phys(hphys, m, vs[vi]) if nviol <= 3 else m
             ident = {l: l for l, _, _ in m["sites"]}
             ta = scenario_text("a", small, ident, list(range(len(m["sites"]))), 0)
             tb = scenario_text("b", small, rel, order, mode)
-            rc2, r2, _ = run_phys(hphys, [("a", ta), ("b", tb)])
+            rc2, r2, _ = run_phys(hphys, [("a", ta), ("b", tb)], timeout=20)
             d2 = compare_phys(r2.get("a", {}), r2.get("b", {}), rel) if rc2 == 0 else diff
             key = "phys %s sites=%s terms=%d" % (name, ",".join("%s(%d,%d)" % s for s in m["sites"]), len(small["terms"]))
             chk.violation(key, "results are not related by the induced index permutation (%s): %s" % (name, d2 or diff),
@@ -635,6 +657,7 @@ def phys_part(chk, plans, unsafe):
     chk.extra["phys_models"] = n_models
     chk.extra["phys_comparisons"] = compared
     chk.extra["phys_skipped_unsafe_copies"] = skipped
+    chk.extra["phys_mismatching_comparisons"] = nviol
 
 
 # --------------------------------------------------------------------------------------------
@@ -717,9 +740,9 @@ def replay(chk, path):
     r = json.load(open(path))
     rp = r.get("replay", {})
     print("replaying %s: %s" % (r.get("key"), r.get("what")))
+    chk.prove(["extract/Extract_C18.vo"])
     common(chk)
     if isinstance(rp, dict) and rp.get("kind") == "index":
-        pv.coq_make(["extract/Extract_C18.vo"])
         runner = IndexRunner(chk)
         t = rp["case"].split()
         mode, ns = int(t[2]), int(t[3])
